@@ -353,6 +353,7 @@ def cli_job(batch):
                 except OSError:
                     pass
             try:
+                argv = list(argv)
                 p = subprocess.run([flex.exe] + argv, cwd=wd, env=env, input=SIMPLE, stdout=subprocess.PIPE, stderr=subprocess.PIPE, timeout=60)
                 rc, err, out = p.returncode, p.stderr.decode("latin-1"), p.stdout
             except subprocess.TimeoutExpired:
@@ -514,7 +515,9 @@ def run(tier):
         runs += res["runs"]
         ncli += res["runs"]
         for kind, text, argv in res["problems"]:
-            ck.violation("C16:cli:%s:%s" % (kind, " ".join(argv)), text, case={"argv": argv})
+            ck.violation("C16:cli:%s:%s" % (kind, " ".join(argv)), text, case={"argv": argv},
+                         replay={"module": "vflib.checks.c16", "func": "cli_job", "args": [[argv, "any" if kind in ("signal", "sanitizer", "silent-failure", "hang") else
+                                                                                           {"missing-argument-accepted": "missing", "not-refused": "refused", "refused": "ok"}.get(kind, "ok"), "replay"]]})
     ck.cov["command_line_shapes"] = ncli
     ck.guard(ncli > 150, "command-line table hardly exercised: %d" % ncli)
     cf = ["m4-missing", "m4-exit3", "m4-killed", "m4-killed-early"] + ["fsize-%d" % n for n in (1, 100, 4096, 8192, 20000, 40000)]
